@@ -286,6 +286,8 @@ func c15r3(r *R) {
 				}
 			}
 			good = sawBounded && sawPlain
+		} else {
+			good = boundedByHelper(hs.Common().Args[1], "$0.Proxy.MITMTLSHandshakeTimeout")
 		}
 	}
 	r.check(good, "handleMITM#handshake-timeout", hm.Pos(), "MITM handshake bounded by MITMTLSHandshakeTimeout when positive", "the MITM handshake is not bounded by its configured timeout")
@@ -442,4 +444,76 @@ func zeroWhenOffOnPaths(rr *ssa.Function, cond string, idx int) bool {
 		}
 	}
 	return n > 0
+}
+
+// boundedByHelper: ctx comes out of a helper split out of the handshake code - `helper(parent, timeout)`
+// returning context.WithTimeout(parent, timeout) when timeout > 0 and parent otherwise - and the timeout it is
+// given is the configured one.
+func boundedByHelper(ctx ssa.Value, wantTimeout string) bool {
+	idx := 0
+	if ex, ok := ctx.(*ssa.Extract); ok {
+		idx = ex.Index
+		ctx = ex.Tuple
+	}
+	c, ok := ctx.(*ssa.Call)
+	if !ok {
+		return false
+	}
+	g := staticCallee(c.Common())
+	if g == nil || !isNewHelper(g) {
+		return false
+	}
+	// which parameter is the timeout: the one whose argument here is the configured timeout
+	tp := -1
+	for i, a := range c.Common().Args {
+		if describe(a) == wantTimeout {
+			tp = i
+		}
+	}
+	if tp < 0 || tp >= len(g.Params) {
+		return false
+	}
+	sawBounded, sawPlain := false, false
+	for _, b := range g.Blocks {
+		for _, ins := range b.Instrs {
+			ret, ok := ins.(*ssa.Return)
+			if !ok || idx >= len(ret.Results) {
+				continue
+			}
+			var vals []ssa.Value
+			var preds []*ssa.BasicBlock
+			if phi, ok := ret.Results[idx].(*ssa.Phi); ok {
+				vals, preds = phi.Edges, phi.Block().Preds
+			} else {
+				vals, preds = []ssa.Value{ret.Results[idx]}, []*ssa.BasicBlock{b}
+			}
+			for i, v := range vals {
+				var wt *ssa.Call
+				if ex, ok := v.(*ssa.Extract); ok {
+					wt, _ = ex.Tuple.(*ssa.Call)
+				}
+				positive := guardedBy(preds[i], func(gs string) bool {
+					k, pol := normCond(gs)
+					l, op, rr, ok := splitTop(k)
+					return ok && !pol && op == "<=" && rr == "0" && l == describeRaw(g.Params[tp])
+				})
+				if wt != nil && calleeName(wt.Common()) == "context.WithTimeout" && wt.Common().Args[1] == ssa.Value(g.Params[tp]) && positive {
+					sawBounded = true
+				} else if _, isParam := v.(*ssa.Parameter); isParam && !positive {
+					sawPlain = true
+				}
+			}
+		}
+	}
+	return sawBounded && sawPlain
+}
+
+// describeRaw prints a parameter as $k regardless of call-site substitutions.
+func describeRaw(p *ssa.Parameter) string {
+	for i, q := range p.Parent().Params {
+		if q == p {
+			return fmt.Sprintf("$%d", i)
+		}
+	}
+	return "$?"
 }
